@@ -291,7 +291,10 @@ def inv_collect(c, k):
     ]
     o = c.locals.get("output", UNBOUND)
     if o is not UNBOUND:
-        out.append(("last-output", z3.Implies(k >= 1, z3.And(o == P.out_output(P.RECV[k - 1]), c.locals["index"] == P.out_index(P.RECV[k - 1])))))
+        out.append(("last-output", z3.Implies(k >= 1, o == P.out_output(P.RECV[k - 1]))))
+        ix = c.locals.get("index", UNBOUND)
+        if ix is not UNBOUND:
+            out.append(("last-index", z3.Implies(k >= 1, ix == P.out_index(P.RECV[k - 1]))))
     out += outputs_after(c, c.locals["ordered_outputs"], k)
     out += callbacks_done(c, G1(c, "cbn"), G1(c, "cblog"), k, _cbs(c))
     out.append(callbacks_none_after(G1(c, "cbn"), k))
